@@ -264,10 +264,14 @@ def hw_cases(draw, ncyc):
         # (last element: the domain's reset is asserted over this edge - the register returns to its initial value,
         # as every resettable register does, whatever start / valid say)
         cyc.append([start, valid, draw(st.one_of(st.sampled_from([0, hi]), INT(0, hi))), 1 if draw(INT(0, 24)) == 0 else 0])
-    return {"p": p, "dw": dw, "cycles": cyc, "elaborations": 2 if draw(INT(0, 3)) == 0 else 1}
+    return {"p": p, "dw": dw, "cycles": cyc, "elaborations": 2 if draw(INT(0, 3)) == 0 else 1,
+            "prior": [PICK(draw, PRIOR) for _ in range(draw(INT(1, 2)))] if draw(INT(0, 2)) == 0 else []}
 
 
-def make_proc(p, dw, elaborations=1):
+PRIOR = ["create", "create-elaborated", "residue", "compute"]
+
+
+def make_proc(p, dw, elaborations=1, prior=()):
     """`elaborations` > 1: the same Processor object has been elaborated before (as when a design is converted and
     then simulated); the hardware must be the same every time."""
     with warnings.catch_warnings():
@@ -275,7 +279,15 @@ def make_proc(p, dw, elaborations=1):
         m = Module()
         cd = ClockDomain("sync")
         m.domains += cd
-        m.submodules.crc = proc = Parameters(algo_of(p), dw).create()
+        # the Parameters object may have served before: another Processor made from it (and elaborated), its residue
+        # or a software computation asked for - the Processor made now must not depend on that
+        params = Parameters(algo_of(p), dw)
+        for op in prior:
+            if op == "create": params.create()
+            elif op == "create-elaborated": Fragment.get(params.create(), None)
+            elif op == "residue": params.residue()
+            elif op == "compute": params.compute([0, (1 << dw) - 1])
+        m.submodules.crc = proc = params.create()
         for _ in range(elaborations - 1):
             Fragment.get(m, None)
         sim = Simulator(m)
@@ -284,7 +296,7 @@ def make_proc(p, dw, elaborations=1):
 
 def hw_body(ctx, case):
     p, dw, cycles = case["p"], case["dw"], case["cycles"]
-    sim, cd, proc = make_proc(p, dw, case.get("elaborations", 1))
+    sim, cd, proc = make_proc(p, dw, case.get("elaborations", 1), case.get("prior", ()))
     fail = []
     st_ = dict(restart_after_data=False, idle_gap=False, start_with_valid=False, start_without_valid=False,
                back_to_back=False, reset_after_data=False)
@@ -339,6 +351,7 @@ def hw_body(ctx, case):
         raise fail[0]
     keys = ["hw:" + k for k, v in st_.items() if v]
     if case.get("elaborations", 1) > 1: keys.append("hw:processor-elaborated-before")
+    if case.get("prior"): keys.append("hw:parameters-used-before")
     ctx.note(case, st_["restart_after_data"] and st_["idle_gap"], *keys, evals=len(cycles))
 
 
@@ -354,13 +367,14 @@ def match_cases(draw):
     gaps = [draw(INT(0, 3)) == 0 for _ in range(len(msg) + n // dw)]
     others = sorted(set(draw(INT(0, (1 << n) - 1)) for _ in range(64))) if n > 8 else list(range(1 << n))
     return {"p": p, "dw": dw, "msg": msg, "gaps": gaps, "others": others,
-            "prefix": [draw(INT(0, hi)) for _ in range(draw(INT(0, 2)))]}
+            "prefix": [draw(INT(0, hi)) for _ in range(draw(INT(0, 2)))],
+            "prior": [PICK(draw, PRIOR) for _ in range(draw(INT(1, 2)))] if draw(INT(0, 1)) == 0 else []}
 
 
 def match_body(ctx, case):
     p, dw, msg = case["p"], case["dw"], case["msg"]
     n = p["crc_width"]
-    sim, cd, proc = make_proc(p, dw)
+    sim, cd, proc = make_proc(p, dw, 1, case.get("prior", ()))
     own = williams(p, msg, dw)
     odd_poly = bool(p["polynomial"] & 1)
     fail = []
@@ -407,6 +421,7 @@ def match_body(ctx, case):
         raise fail[0]
     keys = ["match:positive"]
     if neg[0]: keys.append("match:negative")
+    if case.get("prior"): keys.append("match:parameters-used-before")
     if not odd_poly: keys.append("match:even-poly-negative-skipped")
     if p["reflect_input"] != p["reflect_output"]: keys.append("match:refin!=refout")
     if dw < n: keys.append("match:multi-word-trailer")
@@ -427,7 +442,8 @@ def parts(tier):
 REQUIRED = ["cat:entry", "cat:check-repacked", "sw:refin0-refout0", "sw:refin0-refout1", "sw:refin1-refout0",
             "sw:refin1-refout1", "sw:dw>crc", "sw:dw<crc", "sw:even-poly", "sw:object-used-before", "hw:restart_after_data", "hw:idle_gap",
             "hw:start_with_valid", "hw:start_without_valid", "hw:back_to_back", "hw:processor-elaborated-before", "hw:reset_after_data", "match:positive", "match:negative",
-            "match:refin!=refout", "match:multi-word-trailer", "match:all-trailers-exhaustive"]
+            "match:refin!=refout", "match:multi-word-trailer", "match:all-trailers-exhaustive",
+            "match:parameters-used-before", "hw:parameters-used-before"]
 
 
 def coverage_extra(tier, counters, extra):
